@@ -43,19 +43,20 @@ def main():
     out.append("")
     out.append("Each change was written by a fresh sub-agent that saw only the property text and a scratch worktree; each was confirmed "
                "(patch applies, pinned suite still 122 passed, demo fails with / passes without the change) before being kept under "
-               "`seeded/<name>/`. `-s*` = first round, `-t*` = second round (told which code sites the first round had used).")
+               "`seeded/<name>/`. `-s*` … `-x*` = rounds 1 … 6 (from round 2 on each seeder was told which code sites earlier rounds had used; rounds 3–4 asked for state, defaults, aliasing and scale corner cases; round 6 asked for changes in SUPPORTING code only); `*-revert-*` = the reverse patch of a `fix:` commit; `retired` = a later repair of /repo made the change harmless (its own demo passes with it).")
     out.append("")
     out.append("| change | property | outcome of `./check <property>` (quick tier) on the patched tree | reported |")
     out.append("|---|---|---|---|")
     res = json.load(open(os.path.join(V, "seeded", "RESULTS.json")))
     for name, r in sorted(res.items()):
         out.append("| %s | %s | %s | %s |" % (name, r["property"], r["outcome"], (r.get("what") or "").replace("|", "/").replace("\n", " ")[:150]))
-    n = len(res)
+    retired = sum(1 for r in res.values() if r["outcome"] == "retired")
+    n = len(res) - retired
     caught = sum(1 for r in res.values() if r["outcome"].startswith("caught"))
     replay = sum(1 for r in res.values() if r["outcome"] == "caught:replay")
     out.append("")
-    out.append("Summary: %d changes, %d reported as VIOLATION (%d with a concrete failing input as replay, %d as `no-failing-input-found`), %d missed." % (
-        n, caught, replay, caught - replay, n - caught))
+    out.append("Summary: %d changes, %d reported as VIOLATION (%d with a concrete failing input as replay, %d as `no-failing-input-found`), %d missed; %d retired." % (
+        n, caught, replay, caught - replay, n - caught, retired))
     out.append("")
     out.append(END)
     p = os.path.join(V, "DESIGN.md")
